@@ -112,7 +112,7 @@ def run(ctx):
                         "re-parse is abstract in the model: its result is taken from the real run and only judged (ref counts = owners, other handles unchanged)"]
     ctx.extra_lean_dirs = ["C10"]
     ctx.regen()
-    ctx.prove(["TsVerif.C08.Props", "TsVerif.C08.Persistence"], "TsVerif/C08/Audit.lean")
+    ctx.prove(["TsVerif.C08.Props", "TsVerif.C08.Persistence", "TsVerif.C08.Round11"], "TsVerif/C08/Audit.lean")
     atomic_tie(ctx)
     driver = ctx.build_driver("tsv-c08")
     explorer = ctx.cargo_bin("c08")
